@@ -1,5 +1,6 @@
 import AlgopyVerif.Proofs.Linalg
 import AlgopyVerif.Proofs.LinalgInv
+import AlgopyVerif.Proofs.Logdet
 /-!
 # C07 — linear-algebra functions propagate matrix Taylor polynomials correctly
 
@@ -19,8 +20,12 @@ concrete matrix type in the driver — with the NumPy results on the zeroth coef
   `U` upper triangular gives `det A = det W · ∏ Uᵢᵢ` — the formula `UTPM.det` evaluates; the LU identity itself is
   C08's `lu_defining_equation`.
 
+* `logdet_through_lu`: for a real matrix with `P L U = A`, `log(det A) = log(c) + Σ log|Uᵢᵢ|` with
+  `c = sign(P) · ∏ sign(Uᵢᵢ)` — the formula `UTPM.logdet` evaluates, pointwise along the curve (so the Taylor
+  coefficients agree by the `log` kernel theorem and the `JetOf` closure of C01).
+
 Not proved (partial): rectangular right-hand sides (the theorem is stated in one ring; the model and
-the code handle `n×k`), `logdet` as `log` of that determinant, the Padé approximant of `expm` — these are
+the code handle `n×k`), the Padé approximant of `expm` — these are
 checked on the implementation against independent formulas (Leibniz determinant and exponential series
 in Taylor arithmetic, residuals).
 -/
@@ -52,6 +57,17 @@ theorem det_through_lu {S : Type} [CommRing S] {n : ℕ} (σ : Equiv.Perm (Fin n
     (h : (σ.permMatrix S) * L * U = A) (hL : L.BlockTriangular OrderDual.toDual) (hL1 : ∀ i, L i i = 1)
     (hU : U.BlockTriangular id) : A.det = (Equiv.Perm.sign σ : ℤ) * ∏ i, U i i :=
   det_of_lu_perm σ L U A h hL hL1 hU
+
+/-- `UTPM.logdet`: `log(det A) = log(sign(P) ∏ sign Uᵢᵢ) + Σ log|Uᵢᵢ|` -/
+theorem logdet_through_lu {n : ℕ} (σ : Equiv.Perm (Fin n)) (L U A : Matrix (Fin n) (Fin n) ℝ)
+    (h : (σ.permMatrix ℝ) * L * U = A) (hL : L.BlockTriangular OrderDual.toDual) (hL1 : ∀ i, L i i = 1)
+    (hU : U.BlockTriangular id) (hnz : ∀ i, U i i ≠ 0) :
+    Real.log A.det
+      = Real.log (((Equiv.Perm.sign σ : ℤ) : ℝ) * ∏ i, (SignType.sign (U i i) : ℝ)) + ∑ i, Real.log |U i i| := by
+  rw [det_of_lu_perm σ L U A h hL hL1 hU]
+  have hs : (((Equiv.Perm.sign σ : ℤ)) : ℝ) ≠ 0 := by
+    rcases Int.units_eq_one_or (Equiv.Perm.sign σ) with e | e <;> simp [e]
+  exact logdet_formula Finset.univ _ hs (fun i => U i i) (fun i _ => hnz i)
 
 /-- constant right-hand side (`_solve_non_UTPM_x`) -/
 theorem solve_const_rhs_spec (a : List R) (a0inv b0 : R) (h0 : coR a 0 * a0inv = 1) (d : Nat) (h : d < a.length) :
